@@ -7,11 +7,41 @@ package vrand
 
 import (
 	"math/rand"
+	"sync"
 
 	"github.com/mdlayher/corerad/verifrt/vsched"
 )
 
 type Source = rand.Source
+
+// A draw policy, when set, answers every bounded draw of the execution itself
+// (policy(i) in {0: minimum, 1: middle, 2: maximum} for the i-th draw) instead of making
+// it an explorer choice: for scenarios with too many draws to enumerate.
+var (
+	policyMu sync.Mutex
+	policy   func(i int) int
+	ndraws   int
+)
+
+// SetPolicy installs (nil: removes) a draw policy and resets the draw counter.
+func SetPolicy(f func(i int) int) {
+	policyMu.Lock()
+	policy, ndraws = f, 0
+	policyMu.Unlock()
+}
+
+func pick(label string) int {
+	policyMu.Lock()
+	f, i := policy, ndraws
+	if f != nil {
+		ndraws++
+	}
+	policyMu.Unlock()
+	if f != nil {
+		return f(i) % 3
+	}
+	return vsched.Choose(label, 3)
+}
 
 func NewSource(seed int64) Source { return rand.NewSource(seed) }
 
@@ -26,7 +56,7 @@ func (r *Rand) Int63n(n int64) int64 {
 	if n <= 0 {
 		panic("invalid argument to Int63n")
 	}
-	switch vsched.Choose("rand.Int63n", 3) {
+	switch pick("rand.Int63n") {
 	case 1:
 		return n / 2
 	case 2:
@@ -44,7 +74,7 @@ func choose3(label string, n int64) int64 {
 	if n <= 0 {
 		panic("invalid argument to " + label)
 	}
-	switch vsched.Choose(label, 3) {
+	switch pick(label) {
 	case 1:
 		return n / 2
 	case 2:
@@ -71,7 +101,7 @@ func (r *Rand) Float64() float64 {
 	if vsched.Current() == nil {
 		return r.r.Float64()
 	}
-	return [3]float64{0, 0.5, 0.999999}[vsched.Choose("rand.Float64", 3)]
+	return [3]float64{0, 0.5, 0.999999}[pick("rand.Float64")]
 }
 
 func (r *Rand) Int() int                           { return r.r.Int() }
